@@ -3,7 +3,7 @@ from engine import *
 from facts import strip_generics, callee_of
 import sym
 
-CONFIGS_QUICK = ["F_def"]
+CONFIGS_QUICK = ["F_def", "F_all"]  # every configuration whose cfg-gated code the property depends on
 CONFIGS_THOROUGH = ["F_def", "F_all"]
 TECHNIQUE = 'static analysis: result/resume-state table extraction from MIR paths, byte-class typestate of recovery scans, who-may-construct for HTML-only items'
 EXPLANATION = (
